@@ -495,11 +495,13 @@ class LostRec:
         self.lost += 1
 
 
-def opp_msg_run(cards, msgs):
-    """process_received_message on init-phase messages (the platform's init handlers); returns one observation per message"""
+def opp_msg_run(cards, msgs, registered=True):
+    """process_received_message on init-phase messages (the platform's init handlers); returns one observation per message.
+    registered=False: as during _identify_connection, the connection is not in opp_connection yet"""
     p, sc = make_opp_platform()
     rec = LostRec()
-    p.opp_connection["com1"] = rec
+    if registered:
+        p.opp_connection["com1"] = rec
     boards = p.boards
     obs = []
     for msg in msgs:
@@ -512,6 +514,12 @@ def opp_msg_run(cards, msgs):
             err = None
         except AssertionError:
             err = "assert"
+        except KeyError as e:
+            if registered or e.args != ("com1",):
+                err = "crash:KeyError"
+            else:
+                obs.append("keyerror")      # lost_synch() on a connection that is not registered yet
+                break
         except Exception as e:
             err = "crash:" + type(e).__name__
         end = err or ("crc" if p.bad_crc["com1"] > c0 else "lost" if rec.lost > l0 else "ok")
@@ -523,7 +531,7 @@ def opp_msg_run(cards, msgs):
             o = "cfg " + ",".join("%d:%s" % (b[0], b[2:6].hex()) for b in boards[b0:]) + " end=" + end
         elif len(msg) > 1 and msg[1] == 0x02 and (msg[0] & 0xe0) == 0x20:
             inv = p.gen2_addr_arr.get("com1", {})
-            o = "vers " + ",".join("%d=%d" % (a, v) for a, v in sorted(inv.items()) if v is not None) + " end=" + end
+            o = "vers " + ",".join("%d=%d" % (a, v) for a, v in inv.items() if v is not None) + " end=" + end
         elif len(msg) > 1 and msg[1] in (0x08, 0x19) and (msg[0] & 0xe0) == 0x20:
             ch = ["%d%s=%d" % (c.addr, "m" if c.is_matrix else "i", c.old_state) for c in p.opp_inputs[:n_in]
                   if old0[(c.addr, c.is_matrix)] != c.old_state]
@@ -531,6 +539,8 @@ def opp_msg_run(cards, msgs):
         else:
             o = "illegal end=" + end
         obs.append(o)
+        if not registered and "com1" not in p.gen2_addr_arr:
+            break       # _identify_connection dies on gen2_addr_arr[chain_serial] right after such an inventory reply
     return obs, p, boards
 
 
